@@ -185,3 +185,126 @@ class ShapeProv:
     def run(self):
         self.block(self.f.node.body)
         return self.returns
+
+
+# ---------------------------------------------------------------------------------------------
+# binary-valued arrays (C18): BIN = every element is 0 or 1
+# ---------------------------------------------------------------------------------------------
+BIN, NB = "Bin", "?"
+
+
+class BinDomain:
+    """flow-insensitive-in-loops abstract interpretation: which names hold arrays whose entries are all 0 or 1"""
+
+    def __init__(self, model, func, summaries=None):
+        self.M = model
+        self.f = func
+        self.env = {}
+        self.returns = []
+        self.summaries = summaries if summaries is not None else {}
+        self.trace = []
+
+    def v(self, e):
+        if isinstance(e, ast.Constant):
+            return BIN if e.value in (0, 1, True, False) and not isinstance(e.value, str) and e.value is not None else NB
+        if isinstance(e, ast.Name):
+            return self.env.get(e.id, NB)
+        if isinstance(e, ast.Compare):
+            return BIN
+        if isinstance(e, ast.BoolOp):
+            return BIN
+        if isinstance(e, ast.UnaryOp) and isinstance(e.op, ast.Not):
+            return BIN
+        if isinstance(e, ast.BinOp):
+            a, b = self.v(e.left), self.v(e.right)
+            if isinstance(e.op, (ast.Mult, ast.BitAnd)) and a == BIN and b == BIN:
+                return BIN
+            if isinstance(e.op, ast.BitOr) and a == BIN and b == BIN:
+                return BIN
+            return NB
+        if isinstance(e, ast.Subscript):
+            return self.v(e.value)
+        if isinstance(e, ast.Call):
+            f = e.func
+            if isinstance(f, ast.Attribute) and f.attr in ("reshape", "astype", "copy", "ravel", "flatten", "transpose", "squeeze", "view"):
+                head = self.M.dotted(f.value)
+                if not (head and head[0] in ("np", "xp")):
+                    return self.v(f.value)
+            tgt = self.M.resolve_call(self.f, e)
+            if tgt[0] == "ext":
+                short = tgt[1].split(".")[-1]
+                if short in ("zeros", "zeros_like", "ones", "ones_like"):
+                    return BIN
+                if short in ("reshape", "astype", "copy", "ascontiguousarray", "asarray", "logical_and", "logical_or", "logical_not") and e.args:
+                    return BIN if all(self.v(a) == BIN for a in e.args[:1]) or short.startswith("logical") else NB
+                return NB
+            if tgt[0] == "repo":
+                fn = tgt[1]
+                if fn.qual not in self.summaries:
+                    self.summaries[fn.qual] = NB
+                    sub = BinDomain(self.M, fn, self.summaries)
+                    sub.run()
+                    self.summaries[fn.qual] = BIN if sub.returns and all(t == BIN for _, t in sub.returns) else NB
+                return self.summaries[fn.qual]
+            return NB
+        if isinstance(e, ast.IfExp):
+            return BIN if self.v(e.body) == BIN and self.v(e.orelse) == BIN else NB
+        return NB
+
+    def block(self, stmts):
+        for s in stmts:
+            self.stmt(s)
+
+    def stmt(self, s):
+        if isinstance(s, ast.Assign):
+            val = self.v(s.value)
+            for t in s.targets:
+                if isinstance(t, ast.Name):
+                    self.env[t.id] = val
+                elif isinstance(t, ast.Subscript) and isinstance(t.value, ast.Name):
+                    cur = self.env.get(t.value.id, NB)
+                    new = BIN if cur == BIN and val == BIN else NB
+                    if cur == BIN and new != BIN:
+                        self.trace.append((s, "store of a non-binary value"))
+                    self.env[t.value.id] = new
+                elif isinstance(t, (ast.Tuple, ast.List)):
+                    for x in t.elts:
+                        if isinstance(x, ast.Name):
+                            self.env[x.id] = NB
+        elif isinstance(s, ast.AugAssign):
+            t = s.target
+            name = t.id if isinstance(t, ast.Name) else (t.value.id if isinstance(t, ast.Subscript) and isinstance(t.value, ast.Name) else None)
+            if name is not None:
+                cur = self.env.get(name, NB)
+                val = self.v(s.value)
+                ok = cur == BIN and val == BIN and isinstance(s.op, (ast.Mult, ast.BitAnd, ast.BitOr))
+                if cur == BIN and not ok:
+                    self.trace.append((s, "in-place update that can leave {0,1}"))
+                self.env[name] = BIN if ok else NB
+        elif isinstance(s, ast.Return):
+            self.returns.append((s, self.v(s.value) if s.value is not None else NB))
+        elif isinstance(s, ast.If):
+            e0 = dict(self.env)
+            self.block(s.body)
+            e1 = self.env
+            self.env = dict(e0)
+            self.block(s.orelse)
+            for k in set(e1) | set(self.env):
+                a, b = e1.get(k, NB), self.env.get(k, NB)
+                self.env[k] = BIN if a == BIN and b == BIN else NB
+        elif isinstance(s, (ast.For, ast.While)):
+            for _ in range(2):
+                e0 = dict(self.env)
+                self.block(s.body)
+                for k in set(e0) | set(self.env):
+                    a, b = e0.get(k, self.env.get(k, NB)), self.env.get(k, e0.get(k, NB))
+                    self.env[k] = BIN if a == BIN and b == BIN else NB
+            self.block(s.orelse)
+        elif isinstance(s, ast.With):
+            self.block(s.body)
+        elif isinstance(s, ast.Try):
+            self.block(s.body)
+
+    def run(self):
+        self.block(self.f.node.body)
+        return self.returns
